@@ -2406,7 +2406,12 @@ class Head(Expr):
     def _simplify_up(self, parent, dependents):
         from dask_expr import Repartition
 
-        if isinstance(parent, Repartition) and parent.new_partitions == 1:
+        if (
+            isinstance(parent, Repartition)
+            # the lowered forms (by divisions, ...) have no partition count
+            and "new_partitions" in parent._parameters
+            and parent.new_partitions == 1
+        ):
             return self
 
     def _lower(self):
@@ -2524,7 +2529,12 @@ class Tail(Expr):
     def _simplify_up(self, parent, dependents):
         from dask_expr import Repartition
 
-        if isinstance(parent, Repartition) and parent.new_partitions == 1:
+        if (
+            isinstance(parent, Repartition)
+            # the lowered forms (by divisions, ...) have no partition count
+            and "new_partitions" in parent._parameters
+            and parent.new_partitions == 1
+        ):
             return self
 
     def _lower(self):
